@@ -146,6 +146,7 @@ type vpLTx struct {
 	Snapshot  crypto.Hash
 	Pending   bool
 	Nodes     map[crypto.Hash]bool // chains that already carry this transaction
+	Poison    bool                 // written on purpose although it can never finalize
 }
 
 type vpLedger struct {
@@ -431,7 +432,7 @@ func (l *vpLedger) noteAdmitted(ver *common.VersionedTransaction, kind string) {
 func (l *vpLedger) PendingTxs() []*vpLTx {
 	var out []*vpLTx
 	for _, h := range l.TxOrder {
-		if t := l.Txs[h]; t.Pending && !t.Finalized {
+		if t := l.Txs[h]; t.Pending && !t.Finalized && !t.Poison {
 			out = append(out, t)
 		}
 	}
